@@ -26,7 +26,7 @@
     package (the reporters do not depend on the oracles), and for [run_db_log]
     the book is the same in the three runs by Props/C01.v [resolved_db_outcome]. *)
 From HP Require Import Base.Bytes Base.Utf8 Base.Num Model.Scanner Model.Parser Model.Syntax Model.Elements
-  Model.Dates Model.Writer Model.Reporters Model.Cli.
+  Model.Dates Model.Writer Model.Regex Model.Reporters Model.Cli.
 From HP Require Import Spec.ResolverSpec Spec.ComposeSpec.
 From HP Require Import Proofs.ParserScan Proofs.ParserCorollaries Proofs.ParserConcat Proofs.OrderSites.
 From HP Require Import Proofs.AssemblyCompose.
@@ -115,7 +115,7 @@ Theorem run_bytes_concat_reg :
   forall (NM : Num) (w1 w2 w12 : world) (i : invocation) (op : options) (odb : opened) (f1 f2 : file),
     i_cmd i = CReg ->
     match rc_single_element (op_rc op) with
-    | [] => rc_single_food (op_rc op) = [] \/ plain_pattern (rc_single_food (op_rc op)) = true
+    | [] => rc_single_food (op_rc op) = [] \/ parse_regex (rc_single_food (op_rc op)) <> ReUnmodelled
     | _ :: _ => rc_group_food (op_rc op) = false
     end ->
     load w1 i = inr op -> load w2 i = inr op -> load w12 i = inr op ->
